@@ -196,6 +196,30 @@ impl Inp {
     }
 }
 
+#[cfg(feature = "verif")]
+impl InpId {
+    pub fn index(self) -> u32 {
+        self.0
+    }
+}
+
+#[cfg(feature = "verif")]
+impl DFAId {
+    pub fn index(self) -> usize {
+        self.0
+    }
+}
+
+#[cfg(feature = "verif")]
+impl DFA {
+    pub(crate) fn verif_inputs(&self) -> Vec<(InpId, Inp)> {
+        self.inputs
+            .pairs()
+            .map(|(id, inp)| (id, inp.clone()))
+            .collect()
+    }
+}
+
 #[derive(Debug, Clone, Default, PartialEq, Eq)]
 pub struct InpInternPool {
     store: IndexSet<Inp>,
